@@ -165,7 +165,7 @@ def generate(rng):
                         "what": rng.choice(["len", "iter", "contains", "keys", "items", "get_default", "values", "block_property"]),
                         "key": rng.choice(BLOCKS + CATS + COLS)})
         elif r < 0.90:
-            ops.append({"op": "restart", "how": rng.choice(["memory", "memory", "stream", "path", "pathobj", "tempfile", "wrapper", "subtree_block", "subtree_cat", "str"]),
+            ops.append({"op": "restart", "how": rng.choice(["memory", "memory", "stream", "shortread", "path", "pathobj", "tempfile", "wrapper", "subtree_block", "subtree_cat", "str"]),
                         "b": some_block(), "c": rng.choice(CATS)})
         elif r < 0.94:
             ops.append({"op": "check_all"})
@@ -937,6 +937,24 @@ class Sim:
                 f.write(buf)
                 buf.seek(0)
                 return S.File.read(buf)
+            if how == "shortread":
+                # a stream that hands out at most k characters / bytes per read(size) call (legal for any file object,
+                # usual for pipes and sockets); read() without a size returns everything
+                buf = io.StringIO() if text_mode else io.BytesIO()
+                f.write(buf)
+                data = buf.getvalue()
+                base = io.StringIO if text_mode else io.BytesIO
+                k = (1, 3, 16, 64, 4096)[len(data) % 5]
+                counter = self.res.stats
+
+                class Short(base):
+                    def read(self, size=-1):
+                        if size is None or size < 0:
+                            return super().read()
+                        counter["fault:short-read"] += 1
+                        return super().read(min(size, k))
+
+                return S.File.read(Short(data))
             if how == "path":
                 p = os.path.join(self.scratch, "f.cif" if text_mode else "f.bcif")
                 f.write(p)
